@@ -16,8 +16,9 @@ def one_run(program, plan=None):
                     task = env.tasks.get(name)
                     if task is not None:
                         s.stats['injected'] += 1
-                        env.note_cancel(task, ('injected', n))
-                        task.cancel('injected', n)
+                        # the same token every time: repeated cancels are indistinguishable
+                        env.note_cancel(task, ('injected',))
+                        task.cancel('injected')
                     else:
                         s.stats['inject_no_victim'] += 1
                 sess.at_boundary(n, action)
@@ -30,7 +31,8 @@ STAT_KEYS = ('owner_checked', 'exceptions_observed', 'injected', 'due_checked', 
              'c05_blocks_checked', 'c05_failing_blocks', 'c05_foreign_signal_exits',
              'c05_blocks_tainted', 'containment_events_checked', 'c06_status_changes',
              'c06_samples', 'c06_cancels_judged', 'c06_cancel_before_start',
-             'c06_cancel_running', 'c06_awaits', 'cleanup_spawns')
+             'c06_cancel_running', 'c06_awaits', 'cleanup_spawns', 'graceful_cleanups',
+             'c06_cancel_seen_cleanup_pending')
 
 
 def explore(case, program, rng, relevant, nontrivial, quick_injections=6,
@@ -86,6 +88,12 @@ def explore(case, program, rng, relevant, nontrivial, quick_injections=6,
                     else:
                         for _ in range(min(quick_injections, total)):
                             queue.append([[rng.randint(1, total + 1), rng.choice(names)]])
+                        for _ in range(min(2, quick_injections, total)):
+                            # the same victim twice (second strike during its shutdown)
+                            victim = rng.choice(names)
+                            first_n = rng.randint(1, total + 1)
+                            queue.append([[first_n, victim],
+                                          [first_n + rng.randint(1, 6), victim]])
             if sample is None and case.get('index', 99) < sample_index:
                 sample = {'program': program, 'outcome': env.outcome,
                           'events': [list(map(str, ev)) for ev in sess.events[:25]],
